@@ -150,8 +150,9 @@ class SimpleContractSetup(Contract):
                                  S.and_(S.ge(lo(i), 0), S.eq(c.f(i), (p(i) + ec(i)) * d(i))),
                                  S.and_(S.le(hi(i), 0), S.eq(c.f(i), (p(i) - ec(i)) * d(i))),
                                  S.and_(S.eq(lo(i), 0), S.eq(hi(i), 0)))
-        yield ('C02.contract.cost/one_var', S.implies(one, lambda: S.forall(n, A_cost)))
-        yield ('C02.contract.cost/two_var', S.implies(two, lambda: S.forall(n, lambda i: S.and_(
+        pfx = 'C17.costs_only.contract.equals_full_cost' if case['costs_only'] else 'C02.contract.cost'
+        yield (pfx + '/one_var', S.implies(one, lambda: S.forall(n, A_cost)))
+        yield (pfx + '/two_var', S.implies(two, lambda: S.forall(n, lambda i: S.and_(
             S.eq(c.f(i), (p(i) - ec(i)) * d(i)), S.eq(c.f(n + i), (p(i) + ec(i)) * d(i))))))
         if case['costs_only']:
             return
